@@ -178,43 +178,76 @@ theorem plain_type_roundtrip (hI : IntRoundTrip) (hV : FValRoundTrip) (u : Optio
       · obtain ⟨e, rfl⟩ := hbin rfl; simp [PARAMETER_TYPE_TAGS]
       · cases enc <;> simp [PARAMETER_TYPE_TAGS]
 
-/-- Reading back the `<Enumeration>` entries of an integer-encoded enumerated type rebuilds the dictionary, entry by
-    entry, provided no two keys are equal (as Python compares them). -/
-theorem enum_fold (hI : IntRoundTrip) (u : Option String) (ne : NumEnc) (hf : ne.isFloat = false)
-    (l : List (PyVal × String)) (hint : ∀ kv ∈ l, ∃ i, kv.1 = .int i)
+/-- The dictionary keys of an enumerated type, by encoding: integers on an integer encoding, finite floats on a float
+    encoding, and on a string encoding the byte strings that are ASCII text in the codec the field is decoded with (what
+    `bytes(value, encoding=codec)` produces). -/
+inductive KeyOK : Encoding → PyVal → Prop
+  | int (ne : NumEnc) (h : ne.isFloat = false) (i : Int) : KeyOK (.num ne) (.int i)
+  | flt (ne : NumEnc) (h : ne.isFloat = true) (q : Rat) : KeyOK (.num ne) (.flt (.fin q))
+  | str (e : StrEnc) (b : Bytes) (s : String) (hd : decodeText e.codec b = some s)
+      (ha : s.toList.all (fun c => c.toNat < 128) = true) (he : encodeAsciiText e.codec s = some b) :
+      KeyOK (.str e) (.bytes b)
+
+/-- The `value` attribute the writer gives an entry is read back as the entry's key. -/
+theorem enum_entry_key (hI : IntRoundTrip) (hV : FValRoundTrip) (u : Option String) (enc : Encoding) (k : PyVal)
+    (lab : String) (hk : KeyOK enc k) (x : XmlNode) (hw : writeEnumEntry u enc (k, lab) = .ok x) :
+    ∃ s, x = mkEl u "Enumeration" [("label", lab), ("value", s)] [] ∧ enumKey enc s = .ok k := by
+  cases hk with
+  | int ne hf i =>
+    simp only [writeEnumEntry, showNum] at hw
+    injection hw with hw; subst hw
+    have hri : readInt i.repr = .ok i := hI i
+    exact ⟨toString i, rfl, by simp [enumKey, hf, hri, bind, Except.bind, pure, Except.pure]⟩
+  | flt ne hf q =>
+    simp only [writeEnumEntry, showNum] at hw
+    cases hs : showFloat (.fin q) with
+    | error e => simp [hs] at hw
+    | ok s =>
+      simp only [hs] at hw
+      injection hw with hw; subst hw
+      have hr := hV q s hs
+      exact ⟨s, rfl, by simp [enumKey, hf, hr, bind, Except.bind, pure, Except.pure]⟩
+  | str e b s hd ha he =>
+    simp only [writeEnumEntry, hd, ha, if_true] at hw
+    injection hw with hw; subst hw
+    exact ⟨s, rfl, by simp [enumKey, he, pure, Except.pure]⟩
+
+/-- Reading back the `<Enumeration>` entries of an enumerated type rebuilds the dictionary, entry by entry, provided no
+    two keys are equal (as Python compares them). -/
+theorem enum_fold (hI : IntRoundTrip) (hV : FValRoundTrip) (u : Option String) (enc : Encoding)
+    (l : List (PyVal × String)) (hint : ∀ kv ∈ l, KeyOK enc kv.1)
     (hpw : l.Pairwise (fun a b => pyEq a.1 b.1 = false))
     (acc : List (PyVal × String)) (hfresh : ∀ kv ∈ l, ∀ a ∈ acc, pyEq a.1 kv.1 = false)
-    (ens : List XmlNode) (hm : l.mapM (writeEnumEntry u (.num ne)) = .ok ens) :
-    ens.foldlM (enumStep (.num ne)) acc = .ok (acc ++ l) ∧ (∀ e ∈ ens, e.isElem = true ∧ NoEnc e) := by
+    (ens : List XmlNode) (hm : l.mapM (writeEnumEntry u enc) = .ok ens) :
+    ens.foldlM (enumStep enc) acc = .ok (acc ++ l) ∧ (∀ e ∈ ens, e.isElem = true ∧ NoEnc e) := by
   induction l generalizing acc ens with
   | nil => simp [pure, Except.pure] at hm; subst hm; simp [pure, Except.pure]
   | cons kv l ih =>
     simp only [List.mapM_cons, bind, Except.bind, pure, Except.pure] at hm
-    cases ha : writeEnumEntry u (.num ne) kv with
+    cases ha : writeEnumEntry u enc kv with
     | error e => simp [ha] at hm
     | ok b =>
       simp only [ha] at hm
-      cases hl : l.mapM (writeEnumEntry u (.num ne)) with
+      cases hl : l.mapM (writeEnumEntry u enc) with
       | error e => simp [hl] at hm
       | ok bs =>
         simp only [hl] at hm
         injection hm with hm; subst hm
-        obtain ⟨i, hi⟩ := hint kv (by simp)
+        have hk := hint kv (by simp)
         obtain ⟨k, lab⟩ := kv
-        simp only at hi; subst hi
-        simp only [writeEnumEntry, showNum] at ha
-        injection ha with ha; subst ha
-        have hri : readInt i.repr = .ok i := hI i
-        have hany : acc.any (fun a => pyEq a.1 (.int i)) = false := by
+        simp only at hk
+        obtain ⟨s, hb, hkey⟩ := enum_entry_key hI hV u enc k lab hk b ha
+        subst hb
+        have hany : acc.any (fun a => pyEq a.1 k) = false := by
           rw [List.any_eq_false]
           intro a ha'
-          simpa using hfresh (.int i, lab) (by simp) a ha'
-        have hstep : enumStep (.num ne) acc (mkEl u "Enumeration" [("label", lab), ("value", toString i)] []) =
-            .ok (acc ++ [(.int i, lab)]) := by
-          simp [enumStep, enumKey, hf, mkEl, XmlNode.attr!, XmlNode.attr?, XmlNode.attrs, hri, dictSet, hany, bind,
+          simpa using hfresh (k, lab) (by simp) a ha'
+        have hstep : enumStep enc acc (mkEl u "Enumeration" [("label", lab), ("value", s)] []) =
+            .ok (acc ++ [(k, lab)]) := by
+          simp [enumStep, hkey, mkEl, XmlNode.attr!, XmlNode.attr?, XmlNode.attrs, dictSet, hany, bind,
             Except.bind, pure, Except.pure]
         have hpw' := List.pairwise_cons.mp hpw
-        obtain ⟨h1, h2⟩ := ih (fun kv hkv => hint kv (by simp [hkv])) hpw'.2 (acc ++ [(.int i, lab)])
+        obtain ⟨h1, h2⟩ := ih (fun kv hkv => hint kv (by simp [hkv])) hpw'.2 (acc ++ [(k, lab)])
           (by
             intro kv hkv a ha'
             simp only [List.mem_append, List.mem_singleton] at ha'
@@ -229,12 +262,14 @@ theorem enum_fold (hI : IntRoundTrip) (u : Option String) (ne : NumEnc) (hf : ne
           · exact ⟨rfl, leaf_noEnc u _ _ _ (by decide)⟩
           · exact h2 e he
 
-/-- Enumerated parameter types on an integer encoding, as the loader produces them. -/
+/-- Enumerated parameter types as the loader produces them: on an integer, float or string encoding, with keys of the
+    matching kind. -/
 structure EnumWF (t : LPType) : Prop where
   tag : t.tag = "EnumeratedParameterType"
   unit : t.unit ≠ some ""
-  enc : ∃ ne, t.enc = .num ne ∧ ne.isFloat = false ∧ CalibsWF ne.cals
-  keys : ∀ kv ∈ t.enumeration, ∃ i, kv.1 = .int i
+  enc : EncWF t.enc
+  notBin : ∀ be, t.enc ≠ .bin be
+  keys : ∀ kv ∈ t.enumeration, KeyOK t.enc kv.1
   distinct : t.enumeration.Pairwise (fun a b => pyEq a.1 b.1 = false)
   noEpoch : t.epoch = none
   noOffset : t.offsetFrom = none
@@ -242,32 +277,31 @@ structure EnumWF (t : LPType) : Prop where
 theorem enum_type_roundtrip (hI : IntRoundTrip) (hV : FValRoundTrip) (u : Option String) (t : LPType)
     (hwf : EnumWF t) (x : XmlNode) (hw : writeParameterType u t = .ok x) : loadParameterType u x = .ok t := by
   obtain ⟨tag, name, unit, enc, enumeration, epoch, offsetFrom⟩ := t
-  obtain ⟨htag, hunit, ⟨ne, henc, hfl, hcal⟩, hkeys, hdist, hnoep, hnooff⟩ := hwf
-  simp only at htag hunit henc hkeys hdist hnoep hnooff
-  subst htag henc hnoep hnooff
+  obtain ⟨htag, hunit, hencWF, hnb, hkeys, hdist, hnoep, hnooff⟩ := hwf
+  simp only at htag hunit hencWF hnb hkeys hdist hnoep hnooff
+  subst htag hnoep hnooff
   simp only [writeParameterType] at hw
   simp only [show ("EnumeratedParameterType" == "AbsoluteTimeParameterType" ||
       "EnumeratedParameterType" == "RelativeTimeParameterType") = false by decide, Bool.false_eq_true, if_false] at hw
-  cases he : writeEncoding u (.num ne) with
+  cases he : writeEncoding u enc with
   | error e => simp [he] at hw
   | ok encEl =>
     simp only [he, beq_self_eq_true, if_true] at hw
-    cases hm : enumeration.mapM (writeEnumEntry u (.num ne)) with
+    cases hm : enumeration.mapM (writeEnumEntry u enc) with
     | error e => simp [hm] at hw
     | ok ens =>
       simp only [hm] at hw
       injection hw with hw; subst hw
-      obtain ⟨ea, ek, hex, hek⟩ := writeEncoding_shape u (.num ne) encEl he
+      obtain ⟨ea, ek, hex, hek⟩ := writeEncoding_shape u enc encEl he
       have hekp := descendantsList_plain ek hek
-      obtain ⟨hfold, hens⟩ := enum_fold hI u ne hfl enumeration hkeys hdist [] (by simp) ens hm
+      obtain ⟨hfold, hens⟩ := enum_fold hI hV u enc enumeration hkeys hdist [] (by simp) ens hm
       have hensNo : NoEncList ens := by
         clear hfold hm
         induction ens with
         | nil => trivial
         | cons e es ih => exact ⟨(hens e (by simp)).2, ih (fun e' he' => hens e' (by simp [he']))⟩
       have hensp := descendantsList_plain ens hensNo
-      have hencWF : EncWF (.num ne) := ⟨hcal, fun h => by rw [hfl] at h; cases h⟩
-      have hnp := encEl_not_plain u (.num ne) encEl he
+      have hnp := encEl_not_plain u enc encEl he
       have hnmU : Step.matches u { tag := "UnitSet" } encEl = false :=
         not_matches_of_tag u "UnitSet" encEl (by decide) (by decide) hnp
       have hnmE : Step.matches u { tag := "EnumerationList" } encEl = false :=
@@ -288,7 +322,7 @@ theorem enum_type_roundtrip (hI : IntRoundTrip) (hV : FValRoundTrip) (u : Option
               ([] ++ [encEl, mkEl u "EnumerationList" [] ens])) =
             [] ++ encEl :: (descendantsList ek ++ (mkEl u "EnumerationList" [] ens :: (descendantsList ens ++ []))) := by
           subst hex; simp [mkEl, descendants, descendantsList, XmlNode.isElem]
-        have hde := data_encoding_roundtrip hI hV u _ [] _ (.num ne) hencWF encEl he hdesc (by simp) hBplain
+        have hde := data_encoding_roundtrip hI hV u _ [] _ enc hencWF encEl he hdesc (by simp) hBplain
         have hun : loadUnits u (mkEl u "EnumeratedParameterType" [("name", name)]
               ([] ++ [encEl, mkEl u "EnumerationList" [] ens])) = .ok none := by
           simp [loadUnits, findAll, mkEl, XmlNode.kids, step, List.filter_cons, hnmU]
@@ -299,13 +333,16 @@ theorem enum_type_roundtrip (hI : IntRoundTrip) (hV : FValRoundTrip) (u : Option
           simp [Step.matches, XmlNode.isElem, XmlNode.tag, XmlNode.ns]
         simp only [hut, Bool.false_eq_true, if_false]
         simp only [loadParameterType, loadEnumeration, hel, helems, hfold, hde, hun, bind, Except.bind, pure, Except.pure]
-        simp [mkEl, XmlNode.tag, XmlNode.attr!, XmlNode.attr?, XmlNode.attrs, PARAMETER_TYPE_TAGS]
+        cases enc with
+        | bin be => exact absurd rfl (hnb be)
+        | num ne => simp [mkEl, XmlNode.tag, XmlNode.attr!, XmlNode.attr?, XmlNode.attrs, PARAMETER_TYPE_TAGS]
+        | str se => simp [mkEl, XmlNode.tag, XmlNode.attr!, XmlNode.attr?, XmlNode.attrs, PARAMETER_TYPE_TAGS]
       · have hdesc : descendants (mkEl u "EnumeratedParameterType" [("name", name)]
               ([mkEl u "UnitSet" [] [mkEl u "Unit" [] [] (some s)]] ++ [encEl, mkEl u "EnumerationList" [] ens])) =
             [mkEl u "UnitSet" [] [mkEl u "Unit" [] [] (some s)], mkEl u "Unit" [] [] (some s)] ++
               encEl :: (descendantsList ek ++ (mkEl u "EnumerationList" [] ens :: (descendantsList ens ++ []))) := by
           subst hex; simp [mkEl, descendants, descendantsList, XmlNode.isElem]
-        have hde := data_encoding_roundtrip hI hV u _ _ _ (.num ne) hencWF encEl he hdesc
+        have hde := data_encoding_roundtrip hI hV u _ _ _ enc hencWF encEl he hdesc
           (by intro y hy; simp at hy; rcases hy with rfl | rfl <;> rfl) hBplain
         have hun : loadUnits u (mkEl u "EnumeratedParameterType" [("name", name)]
               ([mkEl u "UnitSet" [] [mkEl u "Unit" [] [] (some s)]] ++ [encEl, mkEl u "EnumerationList" [] ens])) =
@@ -319,7 +356,10 @@ theorem enum_type_roundtrip (hI : IntRoundTrip) (hV : FValRoundTrip) (u : Option
           simp [Step.matches, XmlNode.isElem, XmlNode.tag, XmlNode.ns]
         simp only [hut, if_true]
         simp only [loadParameterType, loadEnumeration, hel, helems, hfold, hde, hun, bind, Except.bind, pure, Except.pure]
-        simp [mkEl, XmlNode.tag, XmlNode.attr!, XmlNode.attr?, XmlNode.attrs, PARAMETER_TYPE_TAGS]
+        cases enc with
+        | bin be => exact absurd rfl (hnb be)
+        | num ne => simp [mkEl, XmlNode.tag, XmlNode.attr!, XmlNode.attr?, XmlNode.attrs, PARAMETER_TYPE_TAGS]
+        | str se => simp [mkEl, XmlNode.tag, XmlNode.attr!, XmlNode.attr?, XmlNode.attrs, PARAMETER_TYPE_TAGS]
 /-- What the time type's `scale` / `offset` attributes say about the default calibrator of its encoding. -/
 inductive TimeCal : Option Calibrator → Prop
   | none : TimeCal none
@@ -327,8 +367,8 @@ inductive TimeCal : Option Calibrator → Prop
   | both (c0 c1 : Rat) : TimeCal (some (.poly [{ coef := c0, exp := 0 }, { coef := c1, exp := 1 }]))
   | other (c : Calibrator) (h : match c with | .poly cs => linearShape cs = false | .spline _ => True) : TimeCal (some c)
 
-/-- Time parameter types as the loader produces them. -/
-structure TimeWF (t : LPType) : Prop where
+/-- Time parameter types on a numeric encoding, as the loader produces them. -/
+structure TimeNumWF (t : LPType) : Prop where
   tag : t.tag = "AbsoluteTimeParameterType" ∨ t.tag = "RelativeTimeParameterType"
   enc : ∃ ne, t.enc = .num ne ∧ EncWF (.num ne) ∧ TimeCal ne.cals.default
   noEnum : t.enumeration = []
@@ -417,8 +457,8 @@ theorem timeScaleOffset_spec (hF : FloatRoundTrip) (ne : NumEnc) (h : TimeCal ne
       injection hso with hso; subst hso; simp
 
 
-theorem time_type_roundtrip (hI : IntRoundTrip) (hV : FValRoundTrip) (u : Option String) (t : LPType)
-    (hwf : TimeWF t) (x : XmlNode) (hw : writeParameterType u t = .ok x) : loadParameterType u x = .ok t := by
+theorem time_type_roundtrip_num (hI : IntRoundTrip) (hV : FValRoundTrip) (u : Option String) (t : LPType)
+    (hwf : TimeNumWF t) (x : XmlNode) (hw : writeParameterType u t = .ok x) : loadParameterType u x = .ok t := by
   obtain ⟨tag, name, unit, enc, enumeration, epoch, offsetFrom⟩ := t
   obtain ⟨htag, ⟨ne, henc, hencwf, htc⟩, hnoenum, hep, hof⟩ := hwf
   simp only at htag henc hnoenum hep hof
@@ -531,6 +571,111 @@ theorem time_type_roundtrip (hI : IntRoundTrip) (hV : FValRoundTrip) (u : Option
             subst hsoSpec
             cases offsetFrom <;> simp [mkEl, XmlNode.attr!, XmlNode.attr?, XmlNode.attrs]
 
+/-- Time types on a string or binary encoding (no scale or offset to derive): epoch, offset reference, units and the
+    encoding are read back. -/
+theorem time_type_roundtrip_nonnum (hI : IntRoundTrip) (hV : FValRoundTrip) (u : Option String) (t : LPType)
+    (htag : t.tag = "AbsoluteTimeParameterType" ∨ t.tag = "RelativeTimeParameterType")
+    (hnn : ∀ ne, t.enc ≠ .num ne) (hencwf : EncWF t.enc) (hnoenum : t.enumeration = [])
+    (hep : t.epoch ≠ some "") (hof : t.offsetFrom ≠ some "")
+    (x : XmlNode) (hw : writeParameterType u t = .ok x) : loadParameterType u x = .ok t := by
+  obtain ⟨tag, name, unit, enc, enumeration, epoch, offsetFrom⟩ := t
+  simp only at htag hnn hencwf hnoenum hep hof
+  subst hnoenum
+  have htime : (tag == "AbsoluteTimeParameterType" || tag == "RelativeTimeParameterType") = true := by
+    rcases htag with rfl | rfl <;> decide
+  have hknown : tag ∈ PARAMETER_TYPE_TAGS := by
+    rcases htag with rfl | rfl <;> decide
+  simp only [writeParameterType, htime, if_true] at hw
+  have hw' : (match writeEncoding u enc with
+      | .error e => .error e
+      | .ok encEl => .ok (mkEl u tag [("name", name)] ([mkEl u "Encoding" (unitAttr unit) [encEl]] ++ timeReference u
+          { tag := tag, name := name, unit := unit, enc := enc, epoch := epoch, offsetFrom := offsetFrom }))) = Except.ok x := by
+    cases enc with
+    | num ne => exact absurd rfl (hnn ne)
+    | str se => exact hw
+    | bin be => exact hw
+  clear hw
+  cases he : writeEncoding u enc with
+  | error e => simp [he] at hw'
+  | ok encEl =>
+    simp only [he] at hw'
+    injection hw' with hw; subst hw
+    obtain ⟨ea, ek, hex, hek⟩ := writeEncoding_shape u enc encEl he
+    have hekp := descendantsList_plain ek hek
+    generalize hUA : unitAttr unit = ua at *
+    generalize hE : mkEl u "Encoding" ua [encEl] = E
+    have hEt : E.tag = "Encoding" := by rw [← hE]; rfl
+    have hEelem : E = .elem u "Encoding" ua none [encEl] := hE.symm
+    obtain ⟨hepoch, hofrom⟩ := timeReference_read u
+      { tag := tag, name := name, unit := unit, enc := enc, epoch := epoch, offsetFrom := offsetFrom } hep hof
+      tag [("name", name)] E hEt
+    have hfindE : findFirst u [step "Encoding"] (mkEl u tag [("name", name)] ([E] ++ timeReference u
+        { tag := tag, name := name, unit := unit, enc := enc, epoch := epoch, offsetFrom := offsetFrom })) = some E := by
+      subst hEelem
+      simp [findFirst, findAll, mkEl, XmlNode.kids, List.filter_cons, Step.matches, step, XmlNode.isElem, XmlNode.tag,
+        XmlNode.ns]
+    have hdesc : descendants (mkEl u tag [("name", name)] ([E] ++ timeReference u
+        { tag := tag, name := name, unit := unit, enc := enc, epoch := epoch, offsetFrom := offsetFrom })) =
+        [E] ++ encEl :: (descendantsList ek ++ [] ++ descendantsList (timeReference u
+          { tag := tag, name := name, unit := unit, enc := enc, epoch := epoch, offsetFrom := offsetFrom })) := by
+      subst hEelem; subst hex
+      simp [mkEl, descendants, descendantsList, descendantsList_append, XmlNode.isElem]
+    have hde := data_encoding_roundtrip hI hV u _ [E] _ enc hencwf encEl he hdesc
+      (by intro y hy; simp at hy; subst hy; rw [hEt]; rfl)
+      (by
+        intro y hy
+        simp only [List.append_nil, List.mem_append] at hy
+        rcases hy with hy | hy
+        · exact hekp y hy
+        · exact descendantsList_plain _ (timeReference_noEnc u _) y hy)
+    have hunits : E.attr? "units" = unit := by
+      subst hEelem; subst hUA
+      cases unit with
+      | none => simp [unitAttr, XmlNode.attr?, XmlNode.attrs]
+      | some v => simp [unitAttr, XmlNode.attr?, XmlNode.attrs]
+    have hattr : ∀ k, k ≠ "units" → E.attr? k = none := by
+      intro k hk
+      subst hEelem; subst hUA
+      cases unit with
+      | none => simp [unitAttr, XmlNode.attr?, XmlNode.attrs]
+      | some v =>
+        have : ("units" == k) = false := by simpa using fun e => hk e.symm
+        simp [unitAttr, XmlNode.attr?, XmlNode.attrs, List.find?_cons, this]
+    have hoff := hattr "offset" (by decide)
+    have hsc := hattr "scale" (by decide)
+    have hnm : (mkEl u tag [("name", name)] ([E] ++ timeReference u
+        { tag := tag, name := name, unit := unit, enc := enc, epoch := epoch, offsetFrom := offsetFrom })).attr! "name"
+        = .ok name := by simp [mkEl, XmlNode.attr!, XmlNode.attr?, XmlNode.attrs]
+    clear hEelem
+    subst hE
+    subst hUA
+    simp only [loadParameterType, bind, Except.bind, pure, Except.pure]
+    simp only [show (mkEl u tag [("name", name)] ([mkEl u "Encoding" (unitAttr unit) [encEl]] ++ timeReference u
+        { tag := tag, name := name, unit := unit, enc := enc, epoch := epoch, offsetFrom := offsetFrom })).tag = tag from rfl,
+      List.contains_iff_mem.mpr hknown, htime, Bool.not_true, Bool.false_eq_true, if_false, if_true, hnm, hfindE, hde,
+      hunits, hoff, hsc, hepoch, hofrom]
+    cases offsetFrom <;> simp [mkEl, XmlNode.attr!, XmlNode.attr?, XmlNode.attrs]
+
+/-- Time parameter types on a string or binary encoding, as the loader produces them. -/
+structure TimeOtherWF (t : LPType) : Prop where
+  tag : t.tag = "AbsoluteTimeParameterType" ∨ t.tag = "RelativeTimeParameterType"
+  notNum : ∀ ne, t.enc ≠ .num ne
+  enc : EncWF t.enc
+  noEnum : t.enumeration = []
+  epoch : t.epoch ≠ some ""
+  offsetFrom : t.offsetFrom ≠ some ""
+
+/-- Time parameter types as the loader produces them, on any kind of encoding. -/
+def TimeWF (t : LPType) : Prop := TimeNumWF t ∨ TimeOtherWF t
+
+/-- **A time parameter type written to XML and loaded back is the same type**: class, name, units, epoch, offset
+    reference, encoding, and the scale / offset pair as the linear default calibrator it stands for. -/
+theorem time_type_roundtrip (hI : IntRoundTrip) (hV : FValRoundTrip) (u : Option String) (t : LPType)
+    (hwf : TimeWF t) (x : XmlNode) (hw : writeParameterType u t = .ok x) : loadParameterType u x = .ok t := by
+  rcases hwf with h | h
+  · exact time_type_roundtrip_num hI hV u t h x hw
+  · exact time_type_roundtrip_nonnum hI hV u t h.tag h.notNum h.enc h.noEnum h.epoch h.offsetFrom x hw
+
 /-- Parameter types of the three families above. -/
 def PTypeWF (t : LPType) : Prop := PlainWF t ∨ EnumWF t ∨ TimeWF t
 
@@ -560,6 +705,62 @@ theorem parameter_roundtrip (u : Option String) (types : List (String × LPType)
       simp [loadParameter, writeParameter, hlt, mkEl, XmlNode.attr!, XmlNode.attr?, XmlNode.attrs, findFirst, findAll,
         XmlNode.kids, ht, Step.matches, step, XmlNode.isElem, XmlNode.tag, XmlNode.ns, XmlNode.text, bind, Except.bind,
         pure, Except.pure]
+
+/-! ### the enumeration regime is inhabited beyond integer keys -/
+
+def exStrEnum : LPType :=
+  { tag := "EnumeratedParameterType", name := "MODE_T", unit := none,
+    enc := .str { encoding := "UTF-16BE", fixedLength := some 32, dynRef := none, lookup := none, useCal := true,
+                  adjuster := none, termChar := none, leadingSize := none, byteOrder := some "mostSignificantByteFirst" },
+    enumeration := [(.bytes [0, 0x4F, 0, 0x4E], "ON"), (.bytes [0, 0x4F, 0, 0x46], "OFF")] }
+
+/-- The enumeration regime holds string-keyed types in a multi-byte codec … -/
+theorem exStrEnum_wf : EnumWF exStrEnum where
+  tag := rfl
+  unit := by decide
+  enc := ⟨CodecOK.be16, Or.inl ⟨32, by decide, rfl, rfl, rfl, rfl, rfl⟩, Or.inl ⟨rfl, by decide⟩⟩
+  notBin := by intro be h; cases h
+  keys := by
+    intro kv hkv
+    simp only [exStrEnum, List.mem_cons, List.mem_nil_iff, or_false] at hkv
+    rcases hkv with rfl | rfl
+    · exact KeyOK.str _ _ "ON" (by decide +kernel) (by decide +kernel) (by decide +kernel)
+    · exact KeyOK.str _ _ "OF" (by decide +kernel) (by decide +kernel) (by decide +kernel)
+  distinct := by decide
+  noEpoch := rfl
+  noOffset := rfl
+
+def exFltEnum : LPType :=
+  { tag := "EnumeratedParameterType", name := "LEVEL_T", unit := some "V",
+    enc := .num { isFloat := true, size := 32, encoding := "IEEE754", byteOrder := "mostSignificantByteFirst",
+                  cals := { default := none, contexts := [] } },
+    enumeration := [(.flt (.fin 0), "ZERO"), (.flt (.fin (3/2)), "NOMINAL")] }
+
+/-- … and float-keyed types on a float encoding. -/
+theorem exFltEnum_wf : EnumWF exFltEnum where
+  tag := rfl
+  unit := by decide
+  enc := ⟨⟨fun d h => (by cases h), fun x h => (by cases h)⟩, fun _ => Or.inr ⟨Or.inl rfl, Or.inr (Or.inl rfl)⟩⟩
+  notBin := by intro be h; cases h
+  keys := by
+    intro kv hkv
+    simp only [exFltEnum, List.mem_cons, List.mem_nil_iff, or_false] at hkv
+    rcases hkv with rfl | rfl
+    · exact KeyOK.flt _ rfl 0
+    · exact KeyOK.flt _ rfl (3/2)
+  distinct := by decide +kernel
+  noEpoch := rfl
+  noOffset := rfl
+
+def exBinTime : LPType :=
+  { tag := "AbsoluteTimeParameterType", name := "CUC_T", unit := some "s",
+    enc := .bin { fixedSize := some 56, sizeRef := none, useCal := true, lookup := none, adjuster := none },
+    epoch := some "TAI", offsetFrom := none }
+
+/-- The time regime holds types on a binary encoding. -/
+theorem exBinTime_wf : TimeWF exBinTime :=
+  Or.inr { tag := Or.inl rfl, notNum := fun ne h => (by cases h), enc := BinWF.fixed 56 (by decide), noEnum := rfl,
+           epoch := by decide, offsetFrom := by decide }
 
 end Spp.C09
 
